@@ -37,6 +37,23 @@ theorem rd32_of_slice (b d : Bytes) (o j : Nat) (hs : (b.drop o).take d.length =
   rw [rd16_of_slice b d o j hs (by omega), show o + j + 2 = o + (j + 2) by omega,
     rd16_of_slice b d o (j+2) hs (by omega)]
 
+theorem lenLang_len16_ok (b : Bytes) (eod o len lang : Nat)
+    (h1 : rd16 b (o+2) = .ok len) (h2 : rd16 b (o+4) = .ok lang) :
+    lenLang b eod o .len16 = .ok (len, lang, 10) := by
+  unfold lenLang
+  simp only [h1, h2]
+
+theorem lenLang_len32_ok (b : Bytes) (eod o len lang : Nat) (h : ¬ o > sub32 eod 12)
+    (h1 : rd32 b (o+4) = .ok len) (h2 : rd16 b (o+10) = .ok lang) :
+    lenLang b eod o .len32 = .ok (len, lang, 12) := by
+  unfold lenLang
+  simp only [if_neg h, h1, h2]
+
+theorem lenLang_len14_ok (b : Bytes) (eod o len : Nat) (h1 : rd32 b (o+2) = .ok len) :
+    lenLang b eod o .len14 = .ok (len, 0, 10) := by
+  unfold lenLang
+  simp only [h1]
+
 /-- one iteration of Decode's loop on a record that points at a valid subtable -/
 theorem record_valid (b : Bytes) (eoh i : Nat) (segs segs' : List Seg) (k : Key) (d : Bytes) (o : Nat)
     (h32 : b.length < 4294967296) (h12 : 12 ≤ b.length)
@@ -63,31 +80,389 @@ theorem record_valid (b : Bytes) (eoh i : Nat) (segs segs' : List Seg) (k : Key)
     rw [if_neg (by omega), hs]
   cases hk : hdrKind f <;> rw [hk] at hm <;> simp only [] at hm
   · obtain ⟨_, h2, lang, h4, hl⟩ := hm
-    unfold lenLang
-    simp only [rd16_of_slice b d o 2 hs (by omega), rd16_of_slice b d o 4 hs (by omega), h2, h4]
+    rw [lenLang_len16_ok b b.length o d.length lang
+      (by rw [rd16_of_slice b d o 2 hs (by omega)]; exact h2)
+      (by rw [rd16_of_slice b d o 4 hs (by omega)]; exact h4)]
+    dsimp only
     rw [if_neg (by omega)]
     simp only [hov, hsl]
     have hk' : (⟨k.p, k.e, if k.p ≠ 1 then 0 else lang⟩ : Key) = k := by
       rw [← hl]
     rw [hk']
-  · obtain ⟨_, h2, lang, h4, hl⟩ := hm
-    unfold lenLang
-    simp only []
-    rw [if_neg (by omega)]
-    simp only [rd32_of_slice b d o 4 hs (by omega), rd16_of_slice b d o 10 hs (by omega), h2, h4]
+  · obtain ⟨hd12, h2, lang, h4, hl⟩ := hm
+    have h12o : ¬ (o > sub32 b.length 12) := by rw [hs12]; omega
+    rw [lenLang_len32_ok b b.length o d.length lang h12o
+      (by rw [rd32_of_slice b d o 4 hs (by omega)]; exact h2)
+      (by rw [rd16_of_slice b d o 10 hs (by omega)]; exact h4)]
+    dsimp only
     rw [if_neg (by omega)]
     simp only [hov, hsl]
     have hk' : (⟨k.p, k.e, if k.p ≠ 1 then 0 else lang⟩ : Key) = k := by
       rw [← hl]
     rw [hk']
   · obtain ⟨_, h2, hl⟩ := hm
-    unfold lenLang
-    simp only [rd32_of_slice b d o 2 hs (by omega), h2]
+    rw [lenLang_len14_ok b b.length o d.length
+      (by rw [rd32_of_slice b d o 2 hs (by omega)]; exact h2)]
+    dsimp only
     rw [if_neg (by omega)]
     simp only [hov, hsl]
     have hk' : (⟨k.p, k.e, if k.p ≠ 1 then 0 else 0⟩ : Key) = k := by
       have : (if k.p ≠ 1 then 0 else 0) = k.l := by rw [hl]; split <;> rfl
       rw [this]
     rw [hk']
+
+/-! ### the overlap check on the layout Encode produces -/
+
+/-- segments in ascending order, non-empty, disjoint, between `lo` and `pos` -/
+def segsOk : Nat → List Seg → Nat → Prop
+  | lo, [], pos => lo ≤ pos
+  | lo, s :: r, pos => lo ≤ s.start ∧ s.start < s.stop ∧ segsOk s.stop r pos
+
+theorem segsOk_bounds (segs : List Seg) : ∀ lo pos, segsOk lo segs pos →
+    lo ≤ pos ∧ ∀ s ∈ segs, lo ≤ s.start ∧ s.start < s.stop ∧ s.stop ≤ pos := by
+  induction segs with
+  | nil => intro lo pos h; exact ⟨h, by intro s hs; cases hs⟩
+  | cons s r ih =>
+    intro lo pos h
+    obtain ⟨h1, h2, h3⟩ := h
+    have := ih _ _ h3
+    refine ⟨by omega, ?_⟩
+    intro x hx
+    rcases List.mem_cons.mp hx with rfl | hx
+    · exact ⟨h1, h2, this.1⟩
+    · have := this.2 x hx; exact ⟨by omega, this.2.1, this.2.2⟩
+
+theorem searchIdx_all_lt (o : Nat) (segs : List Seg) (h : ∀ s ∈ segs, s.start < o) :
+    searchIdx o segs = segs.length := by
+  induction segs with
+  | nil => rfl
+  | cons s r ih =>
+    have hs := h s List.mem_cons_self
+    unfold searchIdx
+    rw [if_neg (by omega), ih (fun x hx => h x (List.mem_cons_of_mem _ hx))]
+    rfl
+
+theorem segsOk_append (segs : List Seg) : ∀ lo pos len, segsOk lo segs pos → 0 < len →
+    segsOk lo (segs ++ [⟨pos, pos + len⟩]) (pos + len) := by
+  induction segs with
+  | nil => intro lo pos len h hl; exact ⟨h, by show pos < pos + len; omega, by show pos + len ≤ pos + len; omega⟩
+  | cons s r ih =>
+    intro lo pos len h hl
+    exact ⟨h.1, h.2.1, ih _ _ _ h.2.2 hl⟩
+
+theorem overlap_append (segs : List Seg) (lo pos len : Nat) (h : segsOk lo segs pos) (_hl : 0 < len)
+    (h32 : pos + len < 4294967296) :
+    overlap segs pos len = some (segs ++ [⟨pos, pos + len⟩]) := by
+  have hb := (segsOk_bounds segs lo pos h).2
+  have hi : searchIdx pos segs = segs.length :=
+    searchIdx_all_lt pos segs (fun s hs => by have := hb s hs; omega)
+  unfold overlap
+  simp only [hi, true_or, if_true, Nat.lt_irrefl, false_and, or_false]
+  rw [Nat.mod_eq_of_lt h32]
+  have hno : ¬ (segs.length > 0 ∧ pos < (segs.getD (segs.length - 1) ⟨0, 0⟩).stop) := by
+    intro ⟨h0, h1⟩
+    have hm : segs.getD (segs.length - 1) ⟨0, 0⟩ ∈ segs := by
+      rw [List.getD_eq_getElem?_getD, List.getElem?_eq_getElem (by omega)]
+      exact List.getElem_mem _
+    have := hb _ hm
+    omega
+  rw [if_neg hno]
+  unfold insertAt
+  rw [List.take_length, List.drop_length]
+
+theorem searchIdx_found (o : Nat) (segs : List Seg) : ∀ lo pos, segsOk lo segs pos →
+    (∃ s ∈ segs, s.start = o) →
+    searchIdx o segs < segs.length ∧ (segs.getD (searchIdx o segs) ⟨0, 0⟩).start = o := by
+  induction segs with
+  | nil => intro lo pos _ ⟨s, hs, _⟩; cases hs
+  | cons s r ih =>
+    intro lo pos h ⟨x, hx, hxo⟩
+    obtain ⟨h1, h2, h3⟩ := h
+    have hb := (segsOk_bounds r _ _ h3).2
+    unfold searchIdx
+    by_cases hle : o ≤ s.start
+    · rw [if_pos hle]
+      refine ⟨by simp, ?_⟩
+      rcases List.mem_cons.mp hx with rfl | hx
+      · exact hxo
+      · have := hb x hx; omega
+    · rw [if_neg hle]
+      have hx' : x ∈ r := by
+        rcases List.mem_cons.mp hx with rfl | hx
+        · omega
+        · exact hx
+      have := ih _ _ h3 ⟨x, hx', hxo⟩
+      refine ⟨by simp only [List.length_cons]; omega, ?_⟩
+      simpa [List.getD_cons_succ] using this.2
+
+theorem overlap_same (segs : List Seg) (lo pos o len : Nat) (h : segsOk lo segs pos)
+    (hm : ∃ s ∈ segs, s.start = o) : overlap segs o len = some segs := by
+  have := searchIdx_found o segs lo pos h hm
+  unfold overlap
+  simp only []
+  rw [if_neg (by omega)]
+
+/-! ### reading the directory records Encode writes -/
+
+theorem rd8_append (pre l : Bytes) (j : Nat) : rd8 (pre ++ l) (pre.length + j) = rd8 l j := by
+  unfold rd8
+  rw [List.getElem?_append_right (by omega), Nat.add_sub_cancel_left]
+
+theorem rd16_append (pre l : Bytes) (j : Nat) : rd16 (pre ++ l) (pre.length + j) = rd16 l j := by
+  unfold rd16
+  rw [rd8_append, show pre.length + j + 1 = pre.length + (j + 1) by omega, rd8_append]
+
+theorem rd32_append (pre l : Bytes) (j : Nat) : rd32 (pre ++ l) (pre.length + j) = rd32 l j := by
+  unfold rd32
+  rw [rd16_append, show pre.length + j + 2 = pre.length + (j + 2) by omega, rd16_append]
+
+theorem rd_rec (x : Ext) (post : Bytes) (hp : x.key.p < 65536) (he : x.key.e < 65536)
+    (ho : x.offs < 4294967296) :
+    rd16 (recBytes x ++ post) 0 = .ok x.key.p ∧ rd16 (recBytes x ++ post) 2 = .ok x.key.e ∧
+    rd32 (recBytes x ++ post) 4 = .ok x.offs := by
+  refine ⟨?_, ?_, ?_⟩
+  · simp only [recBytes, be16, be32, rd16, rd8, List.cons_append, List.nil_append, List.getElem?_cons_zero,
+      List.getElem?_cons_succ, UInt8.toNat_ofNat']
+    congr 1; omega
+  · simp only [recBytes, be16, be32, rd16, rd8, List.cons_append, List.nil_append, List.getElem?_cons_zero,
+      List.getElem?_cons_succ, UInt8.toNat_ofNat']
+    congr 1; omega
+  · simp only [recBytes, be16, be32, rd32, rd16, rd8, List.cons_append, List.nil_append, List.getElem?_cons_zero,
+      List.getElem?_cons_succ, UInt8.toNat_ofNat']
+    congr 1; omega
+
+theorem assign_length (t : Table) : ∀ prev pos, (assign prev pos t).length = t.length := by
+  induction t with
+  | nil => intros; rfl
+  | cons kd rest ih =>
+    intro prev pos
+    obtain ⟨k, d⟩ := kd
+    unfold assign
+    split <;> simp [ih]
+
+theorem flatMap_recBytes_length (l : List Ext) : (l.flatMap recBytes).length = 8 * l.length := by
+  induction l with
+  | nil => rfl
+  | cons x l ih => simp [List.flatMap_cons, recBytes, be16, be32, ih]; omega
+
+theorem drop_take_in (A D T : Bytes) (off len : Nat) (h : off + len ≤ D.length) :
+    ((A ++ (D ++ T)).drop (A.length + off)).take len = (D.drop off).take len := by
+  rw [List.drop_append]
+  have : List.drop (A.length + off) A = [] := List.drop_eq_nil_of_le (by omega)
+  rw [this, List.nil_append, Nat.add_sub_cancel_left, List.drop_append]
+  rw [List.take_append_of_le_length (by rw [List.length_drop]; omega)]
+
+theorem drop_take_prefix (D E : Bytes) (off len : Nat) (h : off + len ≤ D.length) :
+    ((D ++ E).drop off).take len = (D.drop off).take len := by
+  have := drop_take_in [] D E off len h
+  simpa using this
+
+/-- Decode's loop over the records and data Encode laid out (generalised over the part already read) -/
+theorem loop_encode (t2 : Table) : ∀ (prev : List (Bytes × Nat)) (pos i : Nat) (segs : List Seg)
+    (H R1 D1 b : Bytes) (eoh : Nat),
+    H.length = 4 → R1.length = 8 * i → eoh = 4 + 8 * (i + t2.length) → pos = eoh + D1.length →
+    (∀ kd ∈ t2, ValidSub kd.1 kd.2) →
+    (∀ q ∈ prev, q.1 ≠ [] → ∃ off, q.2 = eoh + off ∧ off + q.1.length ≤ D1.length ∧
+        (D1.drop off).take q.1.length = q.1 ∧ ∃ s ∈ segs, s.start = q.2) →
+    segsOk eoh segs pos →
+    b = (H ++ R1 ++ (assign prev pos t2).flatMap recBytes) ++ (D1 ++ (assign prev pos t2).flatMap (·.data)) →
+    b.length < 4294967296 →
+    loop b eoh b.length i t2.length segs = .ok t2 := by
+  induction t2 with
+  | nil => intros; rfl
+  | cons kd t2 ih =>
+    intro prev pos i segs H R1 D1 b eoh hH hR heoh hpos hvalid hinv hsegs hb h32
+    obtain ⟨k, d⟩ := kd
+    have hv : ValidSub k d := hvalid (k, d) List.mem_cons_self
+    have hvalid' : ∀ kd ∈ t2, ValidSub kd.1 kd.2 := fun x hx => hvalid x (List.mem_cons_of_mem _ hx)
+    have hdl := hv.len
+    have hkp : k.p < 65536 := by have := hv.1; omega
+    have hke : k.e < 65536 := hv.2.1
+    simp only [List.length_cons] at heoh ⊢
+    rw [loop]
+    cases hfind : prev.find? (fun q => q.1 == d) with
+    | none =>
+      have hass : assign prev pos ((k, d) :: t2) =
+          ⟨k, pos, d⟩ :: assign (prev ++ [(d, pos)]) ((pos + d.length) % 4294967296) t2 := by
+        rw [assign]; simp only [hfind]
+      rw [hass] at hb
+      simp only [List.flatMap_cons] at hb
+      generalize hext : assign (prev ++ [(d, pos)]) ((pos + d.length) % 4294967296) t2 = ext' at hb
+      have hel : ext'.length = t2.length := by rw [← hext, assign_length]
+      have hbl : b.length = 4 + 8 * i + 8 + 8 * t2.length + D1.length + d.length +
+          (ext'.flatMap (·.data)).length := by
+        rw [hb]
+        simp only [List.length_append, flatMap_recBytes_length, hH, hR, hel, recBytes, be16, be32,
+          List.length_cons, List.length_nil]
+        omega
+      have hmod : (pos + d.length) % 4294967296 = pos + d.length := Nat.mod_eq_of_lt (by omega)
+      have hb2 : b = (H ++ R1) ++ (recBytes ⟨k, pos, d⟩ ++
+          (ext'.flatMap recBytes ++ (D1 ++ (d ++ ext'.flatMap (·.data))))) := by
+        rw [hb]; simp only [List.append_assoc]
+      have hrr := rd_rec ⟨k, pos, d⟩ (ext'.flatMap recBytes ++ (D1 ++ (d ++ ext'.flatMap (·.data))))
+        hkp hke (by show pos < 4294967296; omega)
+      have hpl : (H ++ R1).length = 4 + i * 8 := by rw [List.length_append, hH, hR]; omega
+      have hp : rd16 b (4 + i * 8) = .ok k.p := by
+        rw [hb2, ← hpl, ← Nat.add_zero (H ++ R1).length, rd16_append]; exact hrr.1
+      have he : rd16 b (6 + i * 8) = .ok k.e := by
+        rw [hb2, show 6 + i * 8 = (H ++ R1).length + 2 by omega, rd16_append]; exact hrr.2.1
+      have ho : rd32 b (8 + i * 8) = .ok pos := by
+        rw [hb2, show 8 + i * 8 = (H ++ R1).length + 4 by omega, rd32_append]; exact hrr.2.2
+      have hb3 : b = (H ++ R1 ++ recBytes ⟨k, pos, d⟩ ++ ext'.flatMap recBytes) ++
+          ((D1 ++ d) ++ ext'.flatMap (·.data)) := by
+        rw [hb]; simp only [List.append_assoc]
+      have hAl : (H ++ R1 ++ recBytes ⟨k, pos, d⟩ ++ ext'.flatMap recBytes).length = eoh := by
+        simp only [List.length_append, flatMap_recBytes_length, hH, hR, hel, recBytes, be16, be32,
+          List.length_cons, List.length_nil]
+        omega
+      have hs : (b.drop pos).take d.length = d := by
+        obtain ⟨A, hA, hAl'⟩ : ∃ A : Bytes, b = A ++ ((D1 ++ d) ++ ext'.flatMap (·.data)) ∧ A.length = eoh :=
+          ⟨_, hb3, hAl⟩
+        rw [hA, hpos, ← hAl', drop_take_in A (D1 ++ d) _ D1.length d.length (by rw [List.length_append]; omega)]
+        rw [List.drop_append, List.drop_eq_nil_of_le (Nat.le_refl _), Nat.sub_self, List.drop_zero,
+          List.nil_append, List.take_length]
+      have hov := overlap_append segs eoh pos d.length hsegs (by omega) (by omega)
+      rw [record_valid b eoh i segs _ k d pos h32 (by omega) hp he ho hs (by omega) (by omega) hv hov]
+      simp only []
+      have hrec := ih (prev ++ [(d, pos)]) (pos + d.length) (i + 1) (segs ++ [⟨pos, pos + d.length⟩])
+        H (R1 ++ recBytes ⟨k, pos, d⟩) (D1 ++ d) b eoh hH
+        (by simp only [List.length_append, hR, recBytes, be16, be32, List.length_cons, List.length_nil]; omega)
+        (by omega) (by rw [List.length_append]; omega) hvalid'
+        (by
+          intro q hq hne
+          rcases List.mem_append.mp hq with hq | hq
+          · obtain ⟨off, h1, h2, h3, s, hs1, hs2⟩ := hinv q hq hne
+            refine ⟨off, h1, by rw [List.length_append]; omega, ?_, s, List.mem_append_left _ hs1, hs2⟩
+            rw [drop_take_prefix _ _ _ _ h2]; exact h3
+          · rw [List.mem_singleton] at hq
+            subst hq
+            refine ⟨D1.length, hpos, (by show D1.length + d.length ≤ (D1 ++ d).length; rw [List.length_append]; omega), ?_, ⟨pos, pos + d.length⟩,
+              List.mem_append_right _ List.mem_cons_self, rfl⟩
+            show ((D1 ++ d).drop D1.length).take d.length = d
+            rw [List.drop_append, List.drop_eq_nil_of_le (Nat.le_refl _), Nat.sub_self, List.drop_zero,
+              List.nil_append, List.take_length])
+        (segsOk_append segs eoh pos d.length hsegs (by omega))
+        (by rw [← hmod, hext, hb3]; simp only [List.append_assoc]) h32
+      rw [hrec]
+    | some q =>
+      have hass : assign prev pos ((k, d) :: t2) =
+          ⟨k, q.2, []⟩ :: assign (prev ++ [([], q.2)]) pos t2 := by
+        rw [assign]; simp only [hfind]
+      rw [hass] at hb
+      simp only [List.flatMap_cons, List.nil_append] at hb
+      generalize hext : assign (prev ++ [([], q.2)]) pos t2 = ext' at hb
+      have hel : ext'.length = t2.length := by rw [← hext, assign_length]
+      have hqm : q ∈ prev := List.mem_of_find?_eq_some hfind
+      have hqd : q.1 = d := by
+        have := List.find?_some hfind
+        simpa using this
+      have hqne : q.1 ≠ [] := by
+        rw [hqd]; intro h0; rw [h0] at hdl; simp at hdl
+      obtain ⟨off, hq2, hoff, hqs, hseg⟩ := hinv q hqm hqne
+      rw [hqd] at hoff hqs
+      have hbl : b.length = 4 + 8 * i + 8 + 8 * t2.length + D1.length +
+          (ext'.flatMap (·.data)).length := by
+        rw [hb]
+        simp only [List.length_append, flatMap_recBytes_length, hH, hR, hel, recBytes, be16, be32,
+          List.length_cons, List.length_nil]
+        omega
+      have hb2 : b = (H ++ R1) ++ (recBytes ⟨k, q.2, []⟩ ++
+          (ext'.flatMap recBytes ++ (D1 ++ ext'.flatMap (·.data)))) := by
+        rw [hb]; simp only [List.append_assoc]
+      have hrr := rd_rec ⟨k, q.2, []⟩ (ext'.flatMap recBytes ++ (D1 ++ ext'.flatMap (·.data)))
+        hkp hke (by show q.2 < 4294967296; omega)
+      have hpl : (H ++ R1).length = 4 + i * 8 := by rw [List.length_append, hH, hR]; omega
+      have hp : rd16 b (4 + i * 8) = .ok k.p := by
+        rw [hb2, ← hpl, ← Nat.add_zero (H ++ R1).length, rd16_append]; exact hrr.1
+      have he : rd16 b (6 + i * 8) = .ok k.e := by
+        rw [hb2, show 6 + i * 8 = (H ++ R1).length + 2 by omega, rd16_append]; exact hrr.2.1
+      have ho : rd32 b (8 + i * 8) = .ok q.2 := by
+        rw [hb2, show 8 + i * 8 = (H ++ R1).length + 4 by omega, rd32_append]; exact hrr.2.2
+      have hb3 : b = (H ++ R1 ++ recBytes ⟨k, q.2, []⟩ ++ ext'.flatMap recBytes) ++
+          (D1 ++ ext'.flatMap (·.data)) := by
+        rw [hb]; simp only [List.append_assoc]
+      have hAl : (H ++ R1 ++ recBytes ⟨k, q.2, []⟩ ++ ext'.flatMap recBytes).length = eoh := by
+        simp only [List.length_append, flatMap_recBytes_length, hH, hR, hel, recBytes, be16, be32,
+          List.length_cons, List.length_nil]
+        omega
+      have hs : (b.drop q.2).take d.length = d := by
+        obtain ⟨A, hA, hAl'⟩ : ∃ A : Bytes, b = A ++ (D1 ++ ext'.flatMap (·.data)) ∧ A.length = eoh :=
+          ⟨_, hb3, hAl⟩
+        rw [hA, hq2, ← hAl', drop_take_in A D1 _ off d.length hoff]
+        exact hqs
+      have hov := overlap_same segs eoh pos q.2 d.length hsegs hseg
+      rw [record_valid b eoh i segs _ k d q.2 h32 (by omega) hp he ho hs (by omega) (by omega) hv hov]
+      simp only []
+      have hrec := ih (prev ++ [([], q.2)]) pos (i + 1) segs
+        H (R1 ++ recBytes ⟨k, q.2, []⟩) D1 b eoh hH
+        (by simp only [List.length_append, hR, recBytes, be16, be32, List.length_cons, List.length_nil]; omega)
+        (by omega) hpos hvalid'
+        (by
+          intro x hx hne
+          rcases List.mem_append.mp hx with hx | hx
+          · exact hinv x hx hne
+          · rw [List.mem_singleton] at hx
+            subst hx
+            exact absurd rfl hne)
+        hsegs
+        (by rw [hext, hb3]; simp only [List.append_assoc]) h32
+      rw [hrec]
+
+/-! ### sharing -/
+
+/-- the subtables Encode stores: each distinct byte string once, at its first occurrence -/
+def stored : List Bytes → Table → List Bytes
+  | _, [] => []
+  | seen, (_, d) :: rest => if d ∈ seen then stored seen rest else d :: stored (d :: seen) rest
+
+theorem assign_data (t : Table) : ∀ (prev : List (Bytes × Nat)) (pos : Nat) (seen : List Bytes),
+    (∀ kd ∈ t, kd.2 ≠ []) →
+    (∀ d : Bytes, d ≠ [] → ((∃ q ∈ prev, q.1 = d) ↔ d ∈ seen)) →
+    (assign prev pos t).flatMap (·.data) = (stored seen t).flatMap id := by
+  induction t with
+  | nil => intros; rfl
+  | cons kd t ih =>
+    intro prev pos seen hne hinv
+    obtain ⟨k, d⟩ := kd
+    have hd : d ≠ [] := hne (k, d) List.mem_cons_self
+    have hne' : ∀ kd ∈ t, kd.2 ≠ [] := fun x hx => hne x (List.mem_cons_of_mem _ hx)
+    rw [assign, stored]
+    cases hfind : prev.find? (fun q => q.1 == d) with
+    | none =>
+      have hns : d ∉ seen := by
+        intro hs
+        obtain ⟨q, hq, hqd⟩ := (hinv d hd).mpr hs
+        have := List.find?_eq_none.mp hfind q hq
+        simp [hqd] at this
+      simp only [hns, if_false, List.flatMap_cons, id]
+      rw [ih (prev ++ [(d, pos)]) _ (d :: seen) hne']
+      intro d' hd'
+      constructor
+      · intro ⟨q, hq, hqd⟩
+        rcases List.mem_append.mp hq with hq | hq
+        · exact List.mem_cons_of_mem _ ((hinv d' hd').mp ⟨q, hq, hqd⟩)
+        · rw [List.mem_singleton] at hq; subst hq; rw [← hqd]; exact List.mem_cons_self
+      · intro hm
+        rcases List.mem_cons.mp hm with rfl | hm
+        · exact ⟨(d', pos), List.mem_append_right _ List.mem_cons_self, rfl⟩
+        · obtain ⟨q, hq, hqd⟩ := (hinv d' hd').mpr hm
+          exact ⟨q, List.mem_append_left _ hq, hqd⟩
+    | some q =>
+      have hqm : q ∈ prev := List.mem_of_find?_eq_some hfind
+      have hqd : q.1 = d := by
+        have := List.find?_some hfind
+        simpa using this
+      have hs : d ∈ seen := (hinv d hd).mp ⟨q, hqm, hqd⟩
+      simp only [hs, if_true, List.flatMap_cons, List.nil_append]
+      rw [ih (prev ++ [([], q.2)]) pos seen hne']
+      intro d' hd'
+      constructor
+      · intro ⟨x, hx, hxd⟩
+        rcases List.mem_append.mp hx with hx | hx
+        · exact (hinv d' hd').mp ⟨x, hx, hxd⟩
+        · rw [List.mem_singleton] at hx; subst hx; exact absurd hxd.symm hd'
+      · intro hm
+        obtain ⟨x, hx, hxd⟩ := (hinv d' hd').mpr hm
+        exact ⟨x, List.mem_append_left _ hx, hxd⟩
 
 end SfntV.CmapTable
